@@ -4,6 +4,20 @@ package app
 
 // Contracts for govc (see /verif/DESIGN.md). Comment-only file: no executable code.
 
+// ---------- fields that are only initialised in the constructor ----------
+//@ field app.Process.procConf const
+//@ field app.Process.procState const
+//@ field app.Process.logBuffer const
+//@ field app.Process.procReadyCtx const
+//@ field app.Process.readyCancelFn const
+//@ field app.Process.procLogReadyCtx const
+//@ field app.Process.readyLogCancelFn const
+//@ field app.Process.procRunCtx const
+//@ field app.Process.runCancelFn const
+//@ field app.Process.procStartedChan const
+//@ field app.Process.procStateChan const
+//@ field pclog.ProcessLogBuffer.size const
+
 // ---------- lock discipline helpers ----------
 //@ define unlocked(p *Process) bool = !held(p.Mutex) && !held(p.confMtx) && !held(p.stateMtx) && !held(p.timeMutex) && !held(p.mtxStopFn) && !held(p.logBuffer.mx)
 
@@ -80,7 +94,7 @@ package app
 //@   assigns nothing
 
 // ---------- process object invariant (established by NewProcess) ----------
-//@ define procWF(p *Process) bool = p.procConf != nil && p.procState != nil && p.logBuffer != nil && bufWF(p.logBuffer) &&
+//@ define procWF(p *Process) bool = p.procConf != nil && p.procState != nil && p.logBuffer != nil &&
 //@    cancelOf(p.runCancelFn) == p.procRunCtx && cancelOf(p.readyCancelFn) == p.procReadyCtx && cancelOf(p.readyLogCancelFn) == p.procLogReadyCtx &&
 //@    p.procRunCtx != p.procReadyCtx && p.procRunCtx != p.procLogReadyCtx && p.procReadyCtx != p.procLogReadyCtx &&
 //@    closeOnly(p.procStartedChan)
@@ -161,9 +175,13 @@ package app
 //@           p.procState.SystemTime, p.procState.Age, p.procState.Name, p.procState.Mem, p.procState.CPU, p.procState.IsRunning, p.procState.IsElevated, p.procState.PasswordProvided,
 //@           cancelled[*], causeOk[*], okCancels()
 
+//@ ghost wasSkipped(ref) bool
 //@ func (p *Process) wontRun
 //@   requires procWF(p) && unlocked(p)
+//@   sets wasSkipped(p) := true
 //@   ensures p.done && p.procState.Status == "Skipped" && p.procState.ExitCode == 1
+//@   ensures nolocks: old(noLocks()) ==> noLocks()
+//@   ensures starts() == old(starts())
 
 //@ func (p *Process) getStartTime
 //@   requires !held(p.timeMutex)
@@ -281,7 +299,8 @@ package app
 
 // C02/C03/C09: the supervision loop of one process instance.
 //@ func (p *Process) run
-//@   requires procWF(p) && unlocked(p)
+//@   requires procWF(p) && unlocked(p) && bufWF(p.logBuffer)
+//@   requires gate: gateOpen(p.procConf)
 //@   ensures stopped-before-start: old(p.procState.Status) == "Terminating" ==> starts() == old(starts()) && result == 0
 //@   ensures launches: starts() - old(starts()) <= p.procState.Restarts - old(p.procState.Restarts) + 1
 //@   ensures restarts-mono: p.procState.Restarts >= old(p.procState.Restarts)
@@ -291,7 +310,8 @@ package app
 //@   ensures error-code: p.procState.Status == "Error" ==> result != 0
 //@   ensures error-exitcode: p.procState.Status == "Error" ==> p.procState.ExitCode != 0
 //@   ensures unlocked(p)
-//@   loop 1 invariant procWF(p) && unlocked(p)
+//@   ensures nolocks: old(noLocks()) ==> noLocks()
+//@   loop 1 invariant procWF(p) && unlocked(p) && bufWF(p.logBuffer) && (old(noLocks()) ==> noLocks())
 //@   loop 1 invariant starts() - old(starts()) == p.procState.Restarts - old(p.procState.Restarts)
 //@   loop 1 invariant forall i int :: old(starts()) < i && i < starts() ==> startAfterWait(i) >= ite(p.procConf.RestartPolicy.BackoffSeconds > 1, p.procConf.RestartPolicy.BackoffSeconds, 1) * 1000000000
 //@   loop 1 invariant starts() > old(starts()) ==> lastWait() >= ite(p.procConf.RestartPolicy.BackoffSeconds > 1, p.procConf.RestartPolicy.BackoffSeconds, 1) * 1000000000
@@ -308,7 +328,7 @@ package app
 
 // ======================= ProjectRunner =======================
 //@ define noLocks() bool = forall m ref :: !held(m)
-//@ define runnerWF(p *ProjectRunner) bool = p.runningProcesses != nil && p.doneProcesses != nil &&
+//@ define runnerWF(p *ProjectRunner) bool = p.runningProcesses != nil && p.doneProcesses != nil && p.runningProcesses != p.doneProcesses &&
 //@    (forall k string :: k in p.runningProcesses ==> p.runningProcesses[k] != nil && procWF(p.runningProcesses[k])) &&
 //@    (forall k string :: k in p.doneProcesses ==> p.doneProcesses[k] != nil && procWF(p.doneProcesses[k]))
 
@@ -348,17 +368,21 @@ package app
 //@ func (p *ProjectRunner) addRunningProcess
 //@   requires !held(p.runProcMutex) && p.runningProcesses != nil
 //@   ensures p.runningProcesses[process.procConf.ReplicaName] == process && process.procConf.ReplicaName in p.runningProcesses
-//@   assigns entries(p.runningProcesses)
+//@   assigns p.runningProcesses[process.procConf.ReplicaName]
 //@ func (p *ProjectRunner) addDoneProcess
 //@   requires !held(p.doneProcMutex) && p.doneProcesses != nil
 //@   ensures p.doneProcesses[process.procConf.ReplicaName] == process && process.procConf.ReplicaName in p.doneProcesses
-//@   assigns entries(p.doneProcesses)
+//@   assigns p.doneProcesses[process.procConf.ReplicaName]
 //@ func (p *ProjectRunner) removeRunningProcess
 //@   requires !held(p.runProcMutex)
 //@   ensures !(process.procConf.ReplicaName in p.runningProcesses)
-//@   assigns entries(p.runningProcesses)
+//@   assigns p.runningProcesses[process.procConf.ReplicaName]
 
 // C04: project exit code and shutdown trigger
+//@ func (p *ProjectRunner) recordExitCode
+//@   requires !held(p.exitCodeMutex)
+//@   ensures p.exitCodeSet && p.exitCode == ite(old(p.exitCodeSet), old(p.exitCode), exitCode)
+//@   assigns p.exitCodeSet, p.exitCode
 //@ ghost shutdownCalls() int
 //@ define exitTrigger(code int, c *types.ProcessConfig) bool = (code != 0 && c.RestartPolicy.Restart == "exit_on_failure") || c.RestartPolicy.ExitOnEnd
 
@@ -368,16 +392,29 @@ package app
 //@   ensures called: shutdownCalls() == old(shutdownCalls()) + 1
 //@   ensures nolocks: noLocks()
 //@   sets shutdownCalls() := shutdownCalls() + 1
-//@   assigns everything_but app.ProjectRunner.exitCode[*], types.RestartPolicyConfig.Restart[*], types.RestartPolicyConfig.ExitOnEnd[*], types.RestartPolicyConfig.ExitOnSkipped[*], app.ProjectRunner.runningProcesses[*], app.ProjectRunner.doneProcesses[*]
+//@   assigns everything_but starts[*], gateOpen[*], wasSkipped[*], app.ProjectRunner.exitCode[*], app.ProjectRunner.exitCodeSet[*], types.RestartPolicyConfig.Restart[*], types.RestartPolicyConfig.ExitOnEnd[*], types.RestartPolicyConfig.ExitOnSkipped[*], app.ProjectRunner.runningProcesses[*], app.ProjectRunner.doneProcesses[*]
 
 //@ func (p *ProjectRunner) onProcessEnd
-//@   requires noLocks() && runnerWF(p)
+//@   requires nolocks: noLocks()
+//@   requires wf: runnerWF(p)
 //@   ensures trigger: exitTrigger(exitCode, procConf) <==> shutdownCalls() == old(shutdownCalls()) + 1
 //@   ensures notrigger: !exitTrigger(exitCode, procConf) ==> shutdownCalls() == old(shutdownCalls()) && p.exitCode == old(p.exitCode)
-//@   ensures first-trigger-wins: exitTrigger(exitCode, procConf) ==> p.exitCode == ite(old(shutdownCalls()) == 0, exitCode, old(p.exitCode))
+//@   ensures first-trigger-wins: exitTrigger(exitCode, procConf) ==> p.exitCodeSet && p.exitCode == ite(old(p.exitCodeSet), old(p.exitCode), exitCode)
+//@   ensures nolocks: noLocks()
+//@   assigns everything_but starts[*], gateOpen[*], wasSkipped[*], types.RestartPolicyConfig.Restart[*], types.RestartPolicyConfig.ExitOnEnd[*], types.RestartPolicyConfig.ExitOnSkipped[*], app.ProjectRunner.runningProcesses[*], app.ProjectRunner.doneProcesses[*]
 
 //@ func (p *ProjectRunner) onProcessSkipped
 //@   requires noLocks() && runnerWF(p)
 //@   ensures trigger: procConf.RestartPolicy.ExitOnSkipped <==> shutdownCalls() == old(shutdownCalls()) + 1
 //@   ensures notrigger: !procConf.RestartPolicy.ExitOnSkipped ==> shutdownCalls() == old(shutdownCalls()) && p.exitCode == old(p.exitCode)
-//@   ensures first-trigger-wins: procConf.RestartPolicy.ExitOnSkipped ==> p.exitCode == ite(old(shutdownCalls()) == 0, 1, old(p.exitCode))
+//@   ensures first-trigger-wins: procConf.RestartPolicy.ExitOnSkipped ==> p.exitCodeSet && p.exitCode == ite(old(p.exitCodeSet), old(p.exitCode), 1)
+//@   ensures nolocks: noLocks()
+//@   assigns everything_but starts[*], gateOpen[*], wasSkipped[*], types.RestartPolicyConfig.Restart[*], types.RestartPolicyConfig.ExitOnEnd[*], types.RestartPolicyConfig.ExitOnSkipped[*], app.ProjectRunner.runningProcesses[*], app.ProjectRunner.doneProcesses[*]
+
+// C01/C05: the per-process goroutine — the command is launched only behind an open dependency gate;
+// a process whose gate stays closed is skipped (exit code 1) and never launched.
+//@ func (p *ProjectRunner) runProcess$1
+//@   requires noLocks() && runnerWF(p) && proc != nil && procWF(proc) && bufWF(proc.logBuffer)
+//@   ensures gated: starts() > old(starts()) ==> gateOpen(proc.procConf)
+//@   ensures skipped: !gateOpen(proc.procConf) ==> starts() == old(starts()) && wasSkipped(proc)
+//@   ensures removed: !(proc.procConf.ReplicaName in p.runningProcesses)
